@@ -1203,6 +1203,7 @@ func (interpreter *Interpreter) evaluateDefaultDestroyEvent(
 	containingResourceComposite *CompositeValue,
 	eventDecl *ast.CompositeDeclaration,
 	declarationActivation *VariableActivation,
+	parameterTypes []sema.Parameter,
 ) (arguments []Value) {
 
 	declarationInterpreter := interpreter
@@ -1230,7 +1231,7 @@ func (interpreter *Interpreter) evaluateDefaultDestroyEvent(
 	}
 	declarationInterpreter.declareSelfVariable(self)
 
-	for _, parameter := range parameters {
+	for i, parameter := range parameters {
 		// "lazily" evaluate the default argument expressions.
 		// This is "lazy" with respect to the event's declaration:
 		// if we declare a default event `ResourceDestroyed(foo: Int = self.x)`,
@@ -1238,6 +1239,13 @@ func (interpreter *Interpreter) evaluateDefaultDestroyEvent(
 		// not the context when it is declared. This function is only called after the destroy
 		// triggers the event emission, so with respect to this function it's "eager".
 		defaultArg := declarationInterpreter.evalExpression(parameter.DefaultArgument)
+		// Like an explicitly passed argument, the default argument must be converted
+		// and boxed to the parameter type, e.g. `7` for a parameter of type `Int?`
+		defaultArg = ConvertAndBox(
+			declarationInterpreter,
+			defaultArg,
+			parameterTypes[i].TypeAnnotation.Type,
+		)
 		arguments = append(arguments, defaultArg)
 	}
 
@@ -1407,6 +1415,7 @@ func (interpreter *Interpreter) declareNonEnumCompositeValue(
 						// to properly lexically scope the evaluation of default arguments, we capture the
 						// activations existing at the time when the event was defined and use them here
 						declarationActivation,
+						compositeType.ConstructorParameters,
 					)
 				}
 
